@@ -135,32 +135,56 @@ def record_scan2(pd, norms, x1_name, x1_values, x2_name, x2_values, G_units, kw)
     return ev, np.asarray(st)
 
 
-def _state_energies(rxns, units, kw, walk):
-    """Gibbs energies of the states in visiting order, from each reaction's own
-    get_G_state / get_GoRT_state.  walk=True lists the shared state of consecutive
-    steps twice (the order Reactions.get_E_span uses), walk=False once."""
-    G = []
-    for s, rxn in enumerate(rxns):
-        for state in ('reactants', 'transition_state', 'products'):
-            if getattr(rxn, state) is None:
-                continue
-            if state == 'reactants' and s > 0 and not walk:
-                continue
-            if units is None:
-                G.append(float(rxn.get_GoRT_state(state=state, **dict(kw))))
-            else:
-                G.append(float(rxn.get_G_state(state=state, units=units, **dict(kw))))
-    return G
+def _state_G(rxn, state, units, kw):
+    if units is None:
+        return float(rxn.get_GoRT_state(state=state, **dict(kw)))
+    return float(rxn.get_G_state(state=state, units=units, **dict(kw)))
+
+
+def _step_energies(rxns, units, kw):
+    """One record per step: the Gibbs energy of its reactant state, of its transition
+    state (if any) and of its product state, each from the reaction's own getter.  Every
+    step's reactant state is listed - it need not be the previous step's product state."""
+    steps = []
+    for rxn in rxns:
+        steps.append({'r': _state_G(rxn, 'reactants', units, kw),
+                      't': ([_state_G(rxn, 'transition_state', units, kw)]
+                            if rxn.transition_state is not None else []),
+                      'p': _state_G(rxn, 'products', units, kw)})
+    return steps
+
+
+def _is_contiguous(rxns):
+    from pmutt.reaction.network import state_to_set
+    return all(state_to_set(a.products, a.products_stoich) == state_to_set(b.reactants, b.reactants_stoich)
+               for a, b in zip(rxns, rxns[1:]))
+
+
+def _later_reactant_extreme(steps):
+    """coverage only: a reactant state of a step after the first lies strictly beyond
+    every other state of the sequence"""
+    rest = []
+    for k, st in enumerate(steps):
+        rest += ([st['r']] if k == 0 else []) + st['t'] + [st['p']]
+    return any(st['r'] > max(rest) or st['r'] < min(rest) for st in steps[1:])
 
 
 def record_span(rxns, api, units, kw):
     from pmutt.reaction import Reactions
     from pmutt.reaction.network import Network, state_to_set
+    steps = _step_energies(rxns, units, kw)
+    flat = [g for st in steps for g in [st['r']] + st['t'] + [st['p']]]
+    ev = {'ev': 'span', 'api': api, 'contig': _is_contiguous(rxns),
+          'lrx': _later_reactant_extreme(steps)}
     if api == 'reactions':
-        G = _state_energies(rxns, units, kw, walk=True)
         span = Reactions(reactions=list(rxns)).get_E_span(units=units, **dict(kw))
+        ev['steps'] = [{'r': _dec_nested(st['r']), 't': _dec_nested(st['t']), 'p': _dec_nested(st['p'])}
+                       for st in steps]
     else:
-        G = _state_energies(rxns, units, kw, walk=False)
+        # a path of the network graph: only contiguous sequences are paths
+        if not ev['contig']:
+            raise core.MachineryError('driver asked for a network path of a non-contiguous sequence')
+        G = [g for k, st in enumerate(steps) for g in ([st['r']] if k == 0 else []) + st['t'] + [st['p']]]
         net = Network(reactions=list(rxns))
         path = []
         for s, rxn in enumerate(rxns):
@@ -172,10 +196,10 @@ def record_span(rxns, api, units, kw):
         if len(set(path)) != len(path) or any(p not in net.graph.nodes for p in path):
             raise core.MachineryError('driver built an invalid network path')
         span = net.get_E_span(path=path, units=units, **dict(kw))
+        ev['G'] = _dec_nested(G)
     span = float(span)
-    fin = core.finite(span) and _finite_all(G)
-    ev = {'ev': 'span', 'api': api, 'G': _dec_nested(G),
-          'span': to_dec(span) if core.finite(span) else [0, 0], 'finite': fin}
+    ev['finite'] = core.finite(span) and _finite_all(flat)
+    ev['span'] = to_dec(span) if core.finite(span) else [0, 0]
     return ev, span
 
 
@@ -316,9 +340,13 @@ def _exec_two(case):
     return events, mism
 
 
-def _chain(energies_by_state, ts, mk):
-    """Reactions of a linear sequence; energies_by_state lists the states without
-    repetition (reactants, [TS], products, [TS], products, ...)."""
+def _chain(energies_by_state, ts, mk, extras=None):
+    """Reactions of a linear sequence; energies_by_state lists the intermediates and
+    transition states without repetition (I0, [TS1], I1, [TS2], I2, ...).  extras[s] may
+    give step s a co-reactant ('co': joins the reactants of step s, s >= 1) and / or a
+    by-product ('by': leaves with the products of step s and does not continue), each a
+    (species, stoich) pair - then the reactant state of the next step is NOT the product
+    state of this one."""
     from pmutt.reaction import Reaction
     rxns, p = [], 0
     cur = mk('I0', energies_by_state[0], False)
@@ -329,12 +357,64 @@ def _chain(energies_by_state, ts, mk):
             tsp = mk('TS%d' % (s + 1), energies_by_state[p], True)
         p += 1
         nxt = mk('I%d' % (s + 1), energies_by_state[p], False)
-        rxns.append(Reaction(reactants=cur[0], reactants_stoich=cur[1],
-                             products=nxt[0], products_stoich=nxt[1],
+        ex = (extras[s] if extras else None) or {}
+        reac, rst = list(cur[0]), list(cur[1])
+        prod, pst = list(nxt[0]), list(nxt[1])
+        if ex.get('co'):
+            reac.append(ex['co'][0])
+            rst.append(ex['co'][1])
+        if ex.get('by'):
+            prod.append(ex['by'][0])
+            pst.append(ex['by'][1])
+        rxns.append(Reaction(reactants=reac, reactants_stoich=rst,
+                             products=prod, products_stoich=pst,
                              transition_state=tsp[0] if tsp else None,
                              transition_state_stoich=tsp[1] if tsp else None))
         cur = nxt
     return rxns
+
+
+def _exec_seq(case):
+    """TLC sequence with independent reactant-state energies.  form 'co': step k is
+    I(k-1) + X(k) = [TS(k)] = I(k) with E(X(k)) = r(k) - p(k-1); form 'by': step k is
+    I(k-1) = [TS(k)] = I(k) + Z(k) with E(I(k)) = r(k+1), E(Z(k)) = p(k) - r(k+1)."""
+    from pmutt.statmech import StatMech, presets
+    from pmutt.reaction import Reaction
+
+    def sp(name, e):
+        return StatMech(name=name, potentialenergy=float(e), **presets['electronic'])
+
+    steps, n = case['steps'], len(case['steps'])
+    rxns = []
+    for k, st in enumerate(steps):
+        ts = ([sp('TS%d' % (k + 1), st['t'][0])], [1.0]) if st['t'] else (None, None)
+        if case['form'] == 'co':
+            reac, rst = [sp('I%d' % k, st['r'] if k == 0 else steps[k - 1]['p'])], [1.0]
+            if k > 0 and (st['r'] != steps[k - 1]['p'] or case['zero_extra']):
+                reac.append(sp('X%d' % (k + 1), st['r'] - steps[k - 1]['p']))
+                rst.append(1.0)
+            prod, pst = [sp('I%d' % (k + 1), st['p'])], [1.0]
+        else:
+            reac, rst = [sp('I%d' % k, st['r'])], [1.0]
+            if k + 1 < n:
+                prod, pst = [sp('I%d' % (k + 1), steps[k + 1]['r'])], [1.0]
+                if st['p'] != steps[k + 1]['r'] or case['zero_extra']:
+                    prod.append(sp('Z%d' % (k + 1), st['p'] - steps[k + 1]['r']))
+                    pst.append(1.0)
+            else:
+                prod, pst = [sp('I%d' % (k + 1), st['p'])], [1.0]
+        rxns.append(Reaction(reactants=reac, reactants_stoich=rst, products=prod, products_stoich=pst,
+                             transition_state=ts[0], transition_state_stoich=ts[1]))
+    events, mism = [], []
+    apis = ['reactions'] + (['network'] if _is_contiguous(rxns) else [])
+    for api in apis:
+        ev, span = record_span(rxns, api, 'eV', {'T': case['T']})
+        events.append(ev)
+        r = round(span)
+        if not core.finite(span) or abs(span - r) > 1e-6 or r not in case['spans']:
+            mism.append(('ReplaySpan', {'api': api, 'got': span, 'acceptable': case['spans'],
+                                        'states': case['states']}))
+    return events, mism
 
 
 def _exec_span(case):
@@ -513,19 +593,35 @@ def _exec_rspan(case):
             return ([s, gas], [1.0, rnd.choice([0.5, 1.0, 2.0])])
         return ([s], [1.0])
 
-    rxns = _chain(energies, ts, mk)
+    extras = None
+    if case.get('noncontig'):
+        # co-reactants join / by-products leave: the reactant state of the next step then
+        # differs from this step's product state (by up to a few eV either way)
+        extras = []
+        for k in range(len(ts)):
+            ex = {}
+            if k > 0 and rnd.random() < 0.5:
+                ex['co'] = (StatMech(name='X%d' % k, potentialenergy=rnd.uniform(-3.0, 3.0),
+                                     **presets['electronic']), rnd.choice([1.0, 1.0, 0.5, 2.0]))
+            if k + 1 < len(ts) and rnd.random() < 0.4:
+                ex['by'] = (StatMech(name='Z%d' % k, potentialenergy=rnd.uniform(-3.0, 3.0),
+                                     vib_wavenumbers=[rnd.uniform(200, 3000)], **presets['harmonic']),
+                            1.0)
+            extras.append(ex)
+    rxns = _chain(energies, ts, mk, extras)
     kw = {'T': rnd.uniform(250.0, 1100.0)}
     if gas is not None:
         kw['P'] = 10.0 ** rnd.uniform(-3.0, 1.5)
     events = []
     ev, _ = record_span(rxns, 'reactions', case['units'] or 'eV', kw)
     events.append(ev)
-    ev, _ = record_span(rxns, 'network', case['units'], kw)
-    events.append(ev)
+    if _is_contiguous(rxns):
+        ev, _ = record_span(rxns, 'network', case['units'], kw)
+        events.append(ev)
     return events, []
 
 
-EXEC = {'one': _exec_one, 'two': _exec_two, 'span': _exec_span, 'rpd': _exec_rpd,
+EXEC = {'one': _exec_one, 'two': _exec_two, 'span': _exec_span, 'seq': _exec_seq, 'rpd': _exec_rpd,
         'rspan': _exec_rspan}
 
 
@@ -546,7 +642,7 @@ def execute(case):
 def _tlc_cases(ctx, rnd):
     data, r = core.tlc_cases('MC_Extrema_cases', 'MC_Extrema_cases')
     ctx.coverage['tlc_cases'] = {k: len(v) for k, v in data.items()}
-    one, two, span = list(data['one']), list(data['two']), list(data['span'])
+    one, two, span, seq = list(data['one']), list(data['two']), list(data['span']), list(data['seq'])
 
     def stratified(lst, key, per_group):
         """up to per_group cases of every shape class (all of them in the thorough tier)"""
@@ -561,7 +657,12 @@ def _tlc_cases(ctx, rnd):
 
     one = stratified(one, lambda d: (len(d['t']), len(d['t'][0])), 80)
     two = stratified(two, lambda d: (len(d['a']), len(d['a'][0]), d['nb'], d['order']), 14)
-    span = stratified(span, lambda d: tuple(d['ts']), 45)
+    span = stratified(span, lambda d: tuple(d['ts']), 30)
+    # non-contiguous sequences: all those whose later reactant state is the strict extreme,
+    # a stratified sample of the rest
+    seq = ([d for d in seq if d['lrx']]
+           + stratified([d for d in seq if not d['lrx']],
+                        lambda d: (tuple(len(st['t']) for st in d['steps']), d['contig']), 12))
     cases = []
     for c in one:
         n = len(c['t'])
@@ -576,6 +677,10 @@ def _tlc_cases(ctx, rnd):
                       'norms': [rnd.choice(EXACT_NORMS) for _ in range(n)],
                       'units': rnd.choice([None, None, 'kJ/mol', 'eV']),
                       'pvar': rnd.choice(['P', 'G_kwargs'])})
+    for c in seq:
+        cases.append({'kind': 'seq', 'steps': c['steps'], 'states': c['states'], 'spans': c['spans'],
+                      'form': rnd.choice(['co', 'by']), 'zero_extra': rnd.random() < 0.3,
+                      'T': rnd.choice([298.15, 500.0, 933.0])})
     for c in span:
         cases.append({'kind': 'span', 'ts': c['ts'], 'g': c['g'], 'spans': c['spans'],
                       'T': rnd.choice([298.15, 500.0, 933.0])})
@@ -609,7 +714,7 @@ def _random_cases(ctx, rnd):
         steps = rnd.randint(1, 8)
         cases.append({'kind': 'rspan', 'seed': rnd.randrange(1 << 30),
                       'ts': [rnd.random() < 0.6 for _ in range(steps)],
-                      'gas': rnd.random() < 0.4,
+                      'gas': rnd.random() < 0.4, 'noncontig': steps >= 2 and rnd.random() < 0.6,
                       'units': rnd.choice(SPAN_UNITS + [None])})
     return cases
 
@@ -622,6 +727,8 @@ def _signature(case):
         return ['two', case['t'], case['order']]
     if k == 'span':
         return ['span', case['ts'], case['g']]
+    if k == 'seq':
+        return ['seq', case['steps'], case['form'], case['zero_extra']]
     return [k, case['seed']]
 
 
@@ -630,7 +737,8 @@ def _nontrivial(case, events):
     distinct state energies."""
     for e in events:
         if e['ev'] == 'span':
-            if len({tuple(g) for g in e['G']}) >= 2:
+            g = e['G'] if 'G' in e else [x for st in e['steps'] for x in [st['r']] + st['t'] + [st['p']]]
+            if len({tuple(x) for x in g}) >= 2:
                 return True
         elif e['n'] >= 2 and e['np'] * e.get('nq', 1) >= 2:
             return True
@@ -661,20 +769,24 @@ def run(ctx):
         # (D) design model; the implementation-shaped axis=1 variant must be rejected.
         # The four TLC runs (three models, case generation) are independent processes.
         import concurrent.futures as cf
-        with cf.ThreadPoolExecutor(max_workers=4) as ex:
+        with cf.ThreadPoolExecutor(max_workers=5) as ex:
             f_ok = ex.submit(ctx.model, 'MC_Extrema', 'MC_Extrema' if ctx.quick else 'MC_Extrema_big',
                              workers=8)
             f_bad = [(cfg, inv, ex.submit(ctx.model, 'MC_Extrema', cfg, workers=2, expect_ok=False))
                      for cfg, inv in (('MC_Extrema_axis1', 'StableShape'),
-                                      ('MC_Extrema_axis1_values', 'StableIsArgMin'))]
+                                      ('MC_Extrema_axis1_values', 'StableIsArgMin'),
+                                      ('MC_Extrema_skipreact', 'SpanDefinition'))]
             f_cases = ex.submit(_tlc_cases, ctx, rnd)
             f_ok.result()
             for cfg, inv, f in f_bad:
                 bad = f.result()
                 if bad.ok or bad.violated != inv:
-                    raise core.MachineryError('the axis=1 arg-min variant should be rejected by %s '
+                    raise core.MachineryError('the implementation-shaped variant should be rejected by %s '
                                               '(%s):\n%s' % (inv, cfg, bad.out[-1500:]))
             tlc_cases = f_cases.result()
+        ctx.notes.append('design model rejects a state list that drops the reactant states of later '
+                         'steps (SpanDefinition fails for a non-contiguous sequence); it is harmless '
+                         'for contiguous chains only (lemma ContiguousSkipHarmless)')
         ctx.notes.append('design model rejects arg-min along the reaction rows (numpy axis=1): '
                          'StableShape fails whenever #reactions != #grid points and StableIsArgMin '
                          'fails because the entries are grid indices, not reaction indices')
@@ -684,7 +796,8 @@ def run(ctx):
     found = []                                   # (clause, case, tags, detail)
     cov = {'scan1': 0, 'scan2': 0, 'span_reactions': 0, 'span_network': 0, 'with_units': 0,
            'slices_compared': 0, 'scans_with_phase_change': 0, 'scans_shape_discriminating': 0,
-           'span_highest_before_lowest': 0, 'span_highest_after_lowest': 0}
+           'span_highest_before_lowest': 0, 'span_highest_after_lowest': 0,
+           'span_noncontiguous': 0, 'span_noncontiguous_later_reactant_extreme': 0}
 
     def flat(x):
         return [z for y in x for z in flat(y)] if isinstance(x, list) else [x]
@@ -700,7 +813,11 @@ def run(ctx):
         for e in events:                       # coverage statistics only (no judgement)
             if e['ev'] == 'span':
                 cov['span_' + e['api']] += 1
-                g = [m * 10.0 ** x for m, x in e['G']]
+                gd = e['G'] if 'G' in e else [x for st in e['steps'] for x in [st['r']] + st['t'] + [st['p']]]
+                g = [m * 10.0 ** x for m, x in gd]
+                if e['api'] == 'reactions' and not e['contig']:
+                    cov['span_noncontiguous'] += 1
+                    cov['span_noncontiguous_later_reactant_extreme'] += 1 if e['lrx'] else 0
                 if g.index(max(g)) < g.index(min(g)):
                     cov['span_highest_before_lowest'] += 1
                 elif g.index(max(g)) > g.index(min(g)):
